@@ -2,7 +2,17 @@ import re
 def kinds(e): return [m.split("|",2)[2] for m in e["cell"].get("mok", [])]
 def allk(e, pred): ks = kinds(e); return bool(ks) and all(pred(k) for k in ks)
 isjmp = lambda k: re.match(r"^(J[A-Z]+|CALL) ", k) is not None
+SZ = ["mode","form","mn","w","class","disp","carrier","sreg","creg","shape","immclass","imm","dst","src","count","acc","port","reg"]
+def scen(e,*n): return e["scenario"] in n
 RULES = [
+ ("C03-F08", "MOV CRn,r32 / MOV r32,CRn are 0F 20/22 /r (3 bytes); the size estimate (asmdb FindMinOutputSize) yields 2 (same root cause as C03-F04, seen over the whole C01 space)",
+  lambda e: scen(e,"size_sreg_creg") and e["facet"]=="size_estimate", SZ),
+ ("C03-F09", "PUSH/POP FS/GS counted as 1 byte, PUSH imm16/imm32 counted with the imm8 form (same root causes as C03-F03/F05, seen over the whole C01 space)",
+  lambda e: scen(e,"size_stack") and e["facet"]=="size_estimate", SZ),
+ ("C03-F10", "IMUL r,imm: pass-1 override assumes the imm8 form / omits the 66h prefix (same root cause as C03-F06, seen over the whole C01 space)",
+  lambda e: scen(e,"size_imul") and e["facet"]=="size_estimate", SZ),
+ ("C03-F11", "memory forms whose EMISSION is defective (C02-F01 index without base, C02-F02 [EBP+index] without displacement, C02-F04 [EAX+EAX]): the emitted length is wrong (stray disp32 / missing SIB byte), so it disagrees with the pass-1 size",
+  lambda e: scen(e,"size_ea") and e["facet"]=="size_estimate", SZ),
  ("C03-F01", "a label inside a memory operand ([lab]) is never resolved: pass 1 passes the name through, ng_operand parses it as displacement 0 and MOV r,[lab] / MOV [lab],r encode address 0 without any diagnostic (only LGDT looks the name up) - internal/codegen/x86gen_mov.go / pkg/ng_operand",
   lambda e: e["facet"]=="label_value" and e["deviation"].endswith(",[lab]:zero"), ["use","mode"]),
  ("C03-F02", "branch sizing: pass 1 (pass1_inst_jmp.go estimateJumpSize/processCalcJcc) assumes 2 bytes (3 for CALL / numeric targets) in 16-bit mode and 5/6 bytes in 32-bit mode, while codegen (x86gen_jmp.go handleJcc, x86gen_call.go handleCALL) picks rel8/rel16/rel32 by distance regardless of mode",
@@ -15,6 +25,6 @@ RULES = [
   lambda e: e["scenario"]=="kind_then_label" and e["facet"]=="size_estimate" and allk(e, lambda k: k.startswith("PUSH 0x")), ["mok"]),
  ("C03-F06", "IMUL r,imm: the pass-1 override in pass1_inst_arithmetic.go processIMUL assumes the imm8 form / omits the 66h prefix, handleIMUL emits 69 /r iw|id",
   lambda e: e["scenario"]=="kind_then_label" and e["facet"]=="size_estimate" and allk(e, lambda k: k.startswith("IMUL ")), ["mok"]),
- ("C03-F07", "32-bit addressing: the estimate (pkg/asmdb GetPrefixSize + ng_operand CalcOffsetByteSize/CalcSibByteSize) omits the mandatory disp8 of [EBP], miscounts SIB/disp32 bytes under a 67h prefix in 16-bit mode, and counts the SIB byte that emission drops for [EAX+EAX]",
-  lambda e: e["scenario"]=="kind_then_label" and e["facet"]=="size_estimate" and allk(e, lambda k: re.search(r"\[E[A-Z]{2}", k) is not None), ["mok"]),
+ ("C03-F07", "32-bit addressing: the estimate (pkg/asmdb GetPrefixSize + ng_operand CalcOffsetByteSize/CalcSibByteSize) omits the mandatory disp8 of [EBP], miscounts SIB/disp32 bytes under a 67h prefix in 16-bit mode, and counts the SIB byte that emission drops for [EAX+EAX]; a 16-bit register pair under BITS 32 is emitted through the 32-bit SIB path (C02-F03) with one byte more than sized",
+  lambda e: e["scenario"]=="kind_then_label" and e["facet"]=="size_estimate" and allk(e, lambda k: re.search(r"\[E[A-Z]{2}|\[BX\+SI\]", k) is not None), ["mok"]),
 ]
